@@ -499,6 +499,17 @@ class Body:
             return ('conv', sp.rsplit('::', 1)[1], args[0])
         return ('call', c.get('path', 'indirect'), args, None if noblock else bi)
 
+    def op_ty(self, op):
+        if op['k'] in ('copy', 'move'):
+            p = op['p']
+            if not p['pr']:
+                return self.locals[p['l']]['ty']
+            last = p['pr'][-1]
+            if isinstance(last, dict) and 'ty' in last:
+                return last['ty']
+            return '?'
+        return op.get('ty', '?')
+
     def operand_term(self, op, depth=0, at=None, expand=False):
         k = op['k']
         if k in ('copy', 'move'):
@@ -532,6 +543,8 @@ class Body:
             a = self.operand_term(r['a'], depth, at, expand)
             if r['op'] == 'PtrMetadata':
                 return ('len', a)
+            if r['op'] == 'Not' and self.op_ty(r['a']) not in ('bool', '?'):
+                return ('un', 'BitNot', a)
             return ('un', r['op'], a)
         if k == 'cast':
             a = self.operand_term(r['a'], depth, at, expand)
